@@ -795,6 +795,22 @@ class ExprMixin:
             v = self.st.heap[v.t].f['__store__']
         if v.k == 'tuple':
             return list(v.t)
+        if v.k == 'seq' or (v.k == 'list' and isinstance(self.st.heap[v.t], HSeqList)):
+            # a sequence term that is structurally a concatenation of units has a program-constant length
+            from .solve import concat_leaves
+            term = v.t if v.k == 'seq' else self.st.heap[v.t].seq
+            x = v.x if v.k == 'seq' else self.st.heap[v.t].x
+            out = []
+            for leaf in concat_leaves(z3.simplify(term)):
+                if not (z3.is_app(leaf) and leaf.decl().kind() == z3.Z3_OP_SEQ_UNIT):
+                    raise Unsupported(f'iteration over a sequence of symbolic length: {v}')
+                e = z3.simplify(leaf.arg(0))
+                if z3.is_int_value(e) and e.as_long() < 0 and -e.as_long() in self.st.heap:
+                    hh = self.st.heap[-e.as_long()]
+                    out.append(SV('obj' if isinstance(hh, HObj) else 'list', -e.as_long()))
+                else:
+                    out.append(VI(e) if x in (None, 'int') else SV('ref', e, x))
+            return out
         if v.k == 'list':
             return list(self.st.heap[v.t].items)
         if v.k == 'dict':
